@@ -54,6 +54,7 @@ struct Op {
   bool tool = false;         // "-t xxx" invocation: not a build
   bool dry_run = false;
   RunConfig cfg;             // faults, interrupts, edits during, env
+  bool crash = false;        // additionally enumerate every crash point of every schedule of this invocation
   bool no_expand = false;    // successor worlds of this op are checked but not expanded further
 };
 
